@@ -151,6 +151,15 @@ func TestC08Rapid(t *testing.T) {
 		for _, u := range tc.users {
 			tc.l2.Fund(u.Addr, coinOf("stake", 10))
 		}
+		if rapid.IntRange(0, 2).Draw(rt, "caseTwin") == 0 {
+			// a third L1 asset whose denom differs from the first only in the case of its letters
+			// (bank denoms are case sensitive: ibc/27AB.. and ibc/27ab.. are two assets)
+			w.denoms = append(w.denoms, "uINIT")
+			for _, u := range tc.users {
+				tc.l1.Fund(u.Addr, coinOf("uINIT", 1_000_000_000))
+			}
+			c.Class("l1-denoms-that-differ-only-in-case")
+		}
 		for _, d := range w.denoms {
 			w.initial[d] = w.holdings(d)
 		}
